@@ -44,7 +44,7 @@ def _ctx(ev, events):
 FAM = {
     "name": "builder",
     "mc": {"quick": [("MC_Builder", MC % (5, F, F), "MC_Builder-5")],
-           "thorough": [("MC_Builder", MC % (7, F, F), "MC_Builder-7")]},
+           "thorough": [("MC_Builder", MC % (6, F, F), "MC_Builder-6")]},
     "mc_must_violate": {t: [("MC_Builder", MC % (5, T, F), "MC_Builder-LazyDefaults",
                              "a route without Produces of its own looks the WebService default up when it is used"),
                             ("MC_Builder", MC % (5, F, T), "MC_Builder-DefaultsAppend",
